@@ -74,6 +74,7 @@ def gen_system(tier, seed):
         table = {lab: Fraction(r.randint(0, 40), r.choice([1, 2, 4])) for lab in labels(full)}
         flows = []
         balanced = r.random() < 0.55
+        nan_first = None
         fid = 0
         if balanced:
             # a cycle through all active processes carrying the same quantities; every flow may store
@@ -164,6 +165,12 @@ def gen_system(tier, seed):
             if f[4]:
                 f[4][r.randrange(len(f[4]))] = "nan"
                 stats["nan"] += 1
+            if len(flows) >= 2 and r.random() < 0.6 and flows[0][4] and flows[-1][4]:
+                # missing data in the first flow, a clearly negative entry in a later one: both are reported
+                flows[0][4][0] = "nan"
+                flows[-1][4][-1] = Fraction(-5)
+                nan_first = flows[0][0]
+                stats["nan_first_and_negative_later"] = stats.get("nan_first_and_negative_later", 0) + 1
         if r.random() < 0.05 and stocks:
             s = r.choice(stocks)
             s[r.choice([3, 4, 5])][0] = "nan"
@@ -183,6 +190,9 @@ def gen_system(tier, seed):
         if flows:
             ex = r.choice([flows[0][0], flows[0][1], flows[-1][2]])
             lines.append(f"cf {ex} 0")
+            if nan_first:
+                lines.append(f"cf {nan_first} 0")       # the flow with the missing data is excepted: the others still are checked
+                lines.append(f"cf {nan_first} 1")
         # the checks are queries: the balance computed afterwards is the one computed before
         lines.append("balance")
         lines.append("cmb - 0")
